@@ -3,7 +3,6 @@ package main
 // C01: generated Go compiles.
 
 import (
-	"strconv"
 	"fmt"
 	"go/ast"
 	"go/constant"
@@ -11,6 +10,7 @@ import (
 	"go/types"
 	"regexp"
 	"sort"
+	"strconv"
 	"strings"
 )
 
@@ -23,8 +23,12 @@ func checkC01(w *World, r *Result) {
 	r.Rules = []string{"TPL-1", "TPL-3", "TPL-5", "PRINTF", "TPL-2", "AGR-C01a", "AGR-C01c", "AGR-C01q", "AGR-C01u", "AGR-C01g", "TYPE-SRC", "AGR-C15d", "UTF8-SLICE", "DECL-ID", "GEN-ID", "PKG-ID", "ALIAS-APPEND", "CACHE-DROP", "AGR-C11c"}
 	// the union table consumed by the templates: candidates are the defined named types of the scope, each once (rule shared with C11)
 	checkCandidates(w, r)
-	cacheDropRule(w, r, func(rel string) bool { return rel == "generator/go/gounions" || rel == "generator/go/randdata" || rel == "generator/go/sqlcrud" })
-	aliasAppendRule(w, r, func(rel string) bool { return rel == "generator" || rel == "generator/go/gounions" || rel == "generator/go/randdata" || rel == "generator/go/sqlcrud" || rel == "analysis/sql" })
+	cacheDropRule(w, r, func(rel string) bool {
+		return rel == "generator/go/gounions" || rel == "generator/go/randdata" || rel == "generator/go/sqlcrud"
+	})
+	aliasAppendRule(w, r, func(rel string) bool {
+		return rel == "generator" || rel == "generator/go/gounions" || rel == "generator/go/randdata" || rel == "generator/go/sqlcrud" || rel == "analysis/sql"
+	})
 	r.Assumptions = []string{"holes of class IDENT/TYPE are filled with well-formed Go identifiers/type expressions (they come from go/types)", "goimports adds/removes imports of the standard library and of the packages listed in the header"}
 	maxRep := 2
 	if w.Tier == "thorough" {
